@@ -8,7 +8,7 @@ true value (used only to sample the dataset) is "true".
 Layers (acyclic by construction):
   base    1-3 predicates b0.. of arity 0/1 over <= 2 constants; every ground instance is a fixed probabilistic fact,
           a tunable fact or (rarely) a deterministic fact
-  heads   1-3 statements: tunable fact | tunable AD without body (2-3 heads, one of them fixed in 1/3 of the ADs) | tunable rule
+  heads   1-3 statements: tunable fact | tunable AD without body (2-4 heads, 0-2 of them with a fixed probability) | tunable rule
           (one head, body of 1-2 base literals) | tunable AD with body; every head predicate is fresh, head variables
           occur in a positive body literal
   extra   (only with hidden=True) a second clause for a head predicate (deterministic or with a fixed probability):
@@ -319,18 +319,19 @@ def problems(draw, hidden=True, exhaustive_ads=None):
             prog.append(["ad", [[param(), [name, args]]], body(fo)])
             head_atoms.append((name, 1 if fo else 0))
         else:
-            nheads = draw(st.integers(2, 3))
+            nheads = draw(st.sampled_from([2, 3, 3, 4, 4, 4]))
             with_body = kind == "ladb"
             fo = with_body and has_unary and draw(st.booleans())
             args = [["v", "X"]] if fo else []
-            nfixed = 1 if draw(st.integers(0, 2)) == 0 else 0
+            # 0-2 heads with a fixed probability (at least one tunable head stays)
+            nfixed = min(draw(st.sampled_from([0, 0, 1, 2, 2])), nheads - 2 if nheads > 2 else 1)
             exact = exhaustive_ads if exhaustive_ads is not None else draw(st.booleans())
             parts, left = _split_tenths(draw, nheads, 10)
             if exact:
                 parts[-1] += left
             # initial values: all anonymous, or explicit values that leave room
             explicit = draw(st.integers(0, 2)) == 0
-            fixed_tenths = parts[0] if nfixed else 0
+            fixed_tenths = sum(parts[:nfixed])
             ntun = nheads - nfixed
             inits = [None] * ntun
             if explicit and 10 - fixed_tenths - 1 >= ntun:
